@@ -2,7 +2,7 @@
 # import a confirmed sub-agent change: import_mutant.sh <ID> <k> "<needs>"  -> /verif/seeded/<ID>-<k>/
 ID=$1; K=$2; NEEDS="$3"; SRC=/tmp/wt-out/$ID/mut$K; DST=/verif/seeded/$ID-$K
 mkdir -p $DST; cp $SRC/patch.diff $SRC/demo.rs $SRC/demo_path.txt $SRC/demo_cmd.txt $DST/; cp $SRC/README.md $DST/README.md
-R=$(grep "RESULT $ID mut$K" /tmp/wt-out/$ID/confirm.log | tail -1)
+R=$(cat /tmp/wt-out/$ID/confirm*.log | grep "RESULT $ID mut$K" | tail -1)
 python3 - "$ID" "$K" "$NEEDS" "$R" <<'PY'
 import json,sys
 ID,K,needs,res=sys.argv[1:5]
